@@ -142,6 +142,63 @@ def lookalike_events(env, rng, thorough):
     return events
 
 
+def collision_events(rep, bd, env):
+    """The rendered unit of a power of a compound unit appends the exponent to the symbol ((N/m)**2 shows 'N/m2'), which can be the symbol
+    of a table unit of another quantity type (pressure).  TLC's reading of every table symbol (UnitGrammar!Parse, spec/MC_C06.tla) decides
+    whether the collision is faithful ((1/m)**2 = 1/m2, m**2 = m2) or names a different dimension; in the second case conversions between
+    the two must be refused."""
+    import os
+    from barril.units import Array, FixedArray, Scalar
+    from . import export
+
+    db = env.db
+    table = os.path.join(bd, "table-collisions.json")
+    export.export("default", table)
+    gen_out = os.path.join(bd, "gen-collisions.json")
+    r1 = common.run_tlc("MC_C06", "MC_C06.cfg", bd, env={"MODE": "gen", "TABLE_FILE": table, "OUT_FILE": gen_out, "TRACE_FILE": ""}, workers=1, tag="grammar")
+    rep.add_tlc("grammar reading of every table symbol (for unit-string collisions of powers of compound units)", r1)
+    parts = {}
+    for g in json.load(open(gen_out)):
+        ps = [(p_["atom"], p_["exp"], p_["pre"]) for p_ in g["read"]] if g["read"] and all(p_["ok"] for p_ in g["read"]) else [(g["unit"], 1, 1)]
+        parts[g["unit"]] = ps
+
+    def reading(sym, power):
+        """TLC's reading of the symbol, raised to the power; an atom written with an exponent digit (m2) counts as its stem (m) to that power"""
+        acc = {}
+        for atom, e, pre in parts.get(sym, [(sym, 1, 1)]):
+            if len(atom) >= 2 and atom[-1] in "23456789" and atom[:-1] in db.unit_to_unit_info:
+                atom, e = atom[:-1], e * int(atom[-1])
+            acc[(atom, pre)] = acc.get((atom, pre), 0) + e * power
+        return {k: v for k, v in acc.items() if v}
+
+    events = []
+    faithful = 0
+    for u, info in sorted(db.unit_to_unit_info.items()):
+        if info.quantity_type in ("Unknown", "dimensionless") or not db.GetDefaultCategory(u):
+            continue
+        s = Scalar(1.0, u)
+        d = s
+        for n in (2, 3):
+            d = d * s
+            r = d.GetUnit()
+            other = db.unit_to_unit_info.get(r)
+            if other is None or other.quantity_type == d.GetQuantityType() or not db.GetDefaultCategory(r):
+                continue
+            if reading(u, n) == reading(r, 1):
+                faithful += 1
+                continue
+            dd = d * 2.0
+            p = Scalar(5.0, r)
+            fa = FixedArray(2, [1.0, 2.0], r)
+            for name, fn in (("GetValue", lambda: dd.GetValue(r)), ("FixedArray.ChangingIndex", lambda: fa.ChangingIndex(0, dd)),
+                             ("Array.FromScalars", lambda: Array.FromScalars([p, dd])), ("FixedArray.IndexAsScalar", lambda: fa.IndexAsScalar(0, dd.GetQuantity()))):
+                o = P.outcome(fn)
+                events.append({"op": "Reject", "call": "unit-string collision: " + name, "collision": [u, n, r], "from": [d.GetQuantityType(), u], "to": [other.quantity_type, r],
+                               "family": "ok" if o[0] == "ok" else o[1], "cls": "" if o[0] == "ok" else o[2], "reg_pre": "", "reg_post": "", "ops_pre": "", "ops_post": ""})
+    rep.cov["unit_string_collisions"] = {"faithful (same dimension, exempt)": faithful, "naming another dimension": len(events) // 4}
+    return events
+
+
 def reused_symbol_events(rng, thorough):
     """A history of registrations: an application registers its own quantity type whose unit reuses a symbol of the table.  Either the
     registration is refused, or the two quantity types still cannot be added / subtracted / ordered."""
@@ -177,11 +234,13 @@ def main(tier):
     rng = random.Random(common.seed() + 5)
     events = cross_type_events(env, rng, tier == "thorough")
     events += lookalike_events(env, rng, tier == "thorough")
+    events += collision_events(rep, bd, env)
     more, refused = reused_symbol_events(rng, tier == "thorough")
     rep.cov["registrations_reusing_a_symbol_refused"] = refused
     events += more
     common.judge_trace(rep, bd, events, "incompatible calls across quantity types on the real default database",
-                       key_of=lambda ev: {"check": "cross-type " + ev["call"], "from": ev["from"][0], "to": ev["to"][0]})
+                       key_of=lambda ev: ({"check": "unit-string collision", "unit": ev["collision"][0], "power": ev["collision"][1], "reads_as": ev["collision"][2]}
+                                          if "collision" in ev else {"check": "cross-type " + ev["call"], "from": ev["from"][0], "to": ev["to"][0]}))
     # later valid operations behave as if the failures had not happened: the model machine is re-run after the sweep
     stats2 = qalg.new_stats()
     qalg.emit_and_replay(rep, bd, env, "valid operations after the failing sweep (two seeds, 1 step, 1/60 sample)", 1, 2, "all", 60,
